@@ -75,6 +75,54 @@ Proof.
   exists init, l. split; reflexivity.
 Qed.
 
+(* extending exactly up to the end of a trajectory whose last point has a length of its own (a tail): a zero-length
+   point with the last value is appended at the end, nothing else changes *)
+Lemma tail_positive_last (e : envR) : tail_positive R e = true -> exists init l, e = init ++ [l] /\ 0 < pd l.
+Proof.
+  unfold tail_positive. intro H. destruct (rev e) as [|l r] eqn:E; [discriminate|].
+  exists (rev r), l. split; [|lia].
+  rewrite <- (rev_involutive e), E. reflexivity.
+Qed.
+Lemma tail_positive_false_last_zero (e : envR) : e <> [] -> pwf e -> tail_positive R e = false ->
+  exists X L, e = X ++ [L] /\ pd L = 0.
+Proof.
+  intros Ne W H. destruct (exists_last Ne) as (init & l & E). subst e.
+  unfold tail_positive in H. rewrite rev_unit in H.
+  apply pwf_app in W. destruct W as [_ W]. apply pwf_cons in W. destruct W as [Wl _].
+  exists init, l. split; [reflexivity|lia].
+Qed.
+Lemma extend_shape_eq (e : envR) e' : pwf e -> tail_positive R e = true ->
+  env_extend_until R RNum e (pdur R e) = Ok e' ->
+  exists init l, e = init ++ [l] /\ e' = e ++ [mkPt 0 (pv l) 0%R].
+Proof.
+  intros W TP H. unfold env_extend_until in H.
+  destruct (tail_positive_last e TP) as (init & l & E & Pl).
+  assert (Ne : e <> []) by (intros ->; discriminate).
+  pose proof (pdur_nonneg _ W) as Nn.
+  rewrite sample_at_body in H by exact Ne. unfold sample_body in H.
+  unfold check_time in H. destruct (Z.ltb_spec (pdur R e) 0) as [T0|T0]; [lia|].
+  cbn [bind] in H. cbv zeta in H.
+  pose proof W as W'. rewrite E in W'. apply pwf_app in W'. destruct W' as [Wi Wl].
+  pose proof (pdur_nonneg _ Wi) as Ni.
+  assert (Dl : pdur R e = pdur R init + pd l) by (rewrite E, pdur_app; cbn [pdur]; lia).
+  assert (N : ~ In (pdur R e) (pstarts R e)).
+  { unfold pstarts. rewrite E at 2. apply notin_starts_snoc; [exact Wi|lia]. }
+  destruct (memZ (pdur R e) (pstarts R e)) eqn:M; [apply memZ_In in M; contradiction|].
+  assert (TposR : (0 < tofR (pdur R e))%R) by (apply tofR_pos; lia).
+  rewrite value_at_curve' in H by exact Ne.
+  rewrite curve_shape_at_nonneg in H by assumption. cbn [bind] in H.
+  unfold pindex_at, index_at_from in H.
+  destruct (Z.ltb_spec (pdur R e) (pdur R e)); [lia|]. cbn [andb] in H.
+  rewrite (bisect_right_all (pdur R e) (pstarts R e)) in H by (apply starts_le; [exact W|lia]).
+  assert (E0 : nth_error (pstarts R e) (length (pstarts R e)) = None) by (apply nth_error_None; lia).
+  rewrite E0 in H. rewrite cs_go_all in H by (assumption || lia).
+  assert (V : curve e (tofR (pdur R e)) = pv l).
+  { rewrite E at 1. apply curve_after_last; [exact Wi|apply tofR_le; lia|exact TposR]. }
+  rewrite V in H.
+  rewrite squash_at_end in H; [|exact W|exact N|cbn [pd]; lia].
+  rewrite Z.ltb_irrefl in H. injection H as <-. exists init, l. split; [exact E|reflexivity].
+Qed.
+
 (* ================================================================ 2. the curve of an appended envelope *)
 Lemma join_core (X : envR) L tb : pwf (X ++ [L]) -> pd L = 0 -> pwf tb -> tb <> [] ->
   let t := (X ++ [L]) ++ tb in
@@ -123,7 +171,7 @@ Lemma join_unfold fa fb (ta : envR) da tb :
   if negb fa && negb fb && match ta, tb with p :: _, q :: _ => neqb RNum (pv p) (pv q) | _, _ => false end
   then Ok ta
   else (ta' <- (if da <? pdur R ta then env_cut_out R RNum ta 0 da
-                else if pdur R ta <? da then env_extend_until R RNum ta da else Ok ta) ;
+                else if (pdur R ta <? da) || tail_positive R ta then env_extend_until R RNum ta da else Ok ta) ;
         Ok (ta' ++ tb)).
 Proof. reflexivity. Qed.
 
@@ -135,7 +183,7 @@ Proof.
   destruct (negb fa && negb fb && _); [eexists; reflexivity|].
   destruct (Z.ltb_spec da (pdur R ta)).
   - destruct (cut_out_total ta 0 da W Ne ltac:(lia) Hd) as [e' E]. rewrite E. eexists; reflexivity.
-  - destruct (Z.ltb_spec (pdur R ta) da).
+  - destruct ((pdur R ta <? da) || tail_positive R ta).
     + unfold env_extend_until. destruct (sample_total ta da 0 W Ne Hd ltac:(lia)) as [e' E]. rewrite E.
       eexists; reflexivity.
     + eexists; reflexivity.
@@ -155,13 +203,12 @@ Qed.
 
 (* the first part: duration da, ending with a zero-length point, same curve as ta on (-oo, da] *)
 Lemma first_part (ta : envR) da ta' : pwf ta -> ta <> [] -> 0 <= da ->
-  (pdur R ta = da -> last_zero ta) ->
   (if da <? pdur R ta then env_cut_out R RNum ta 0 da
-   else if pdur R ta <? da then env_extend_until R RNum ta da else Ok ta) = Ok ta' ->
+   else if (pdur R ta <? da) || tail_positive R ta then env_extend_until R RNum ta da else Ok ta) = Ok ta' ->
   exists X L, ta' = X ++ [L] /\ pd L = 0 /\ pdur R X = da /\ pwf ta' /\
     (forall x, (x <= tofR da)%R -> curve ta' x = curve ta x).
 Proof.
-  intros W Ne Hd HZ H. destruct (Z.ltb_spec da (pdur R ta)) as [L1|L1].
+  intros W Ne Hd H. destruct (Z.ltb_spec da (pdur R ta)) as [L1|L1].
   - destruct (cut_out_shape ta da ta' W Hd H) as (B & L & E & HL & HB & WB).
     destruct (cut_out_curve ta 0 da ta' W ltac:(lia) Hd H) as [C1 C2].
     exists B, L. split; [exact E|]. split; [exact HL|]. split; [exact HB|]. split.
@@ -172,33 +219,40 @@ Proof.
         rewrite (curve_nonpos p r 0%R) in C2 by lra. rewrite <- C2.
         subst ta'. destruct B as [|b B]; cbn [app]; rewrite !curve_nonpos by lra; reflexivity.
       * rewrite C1 by (rewrite Z.sub_0_r; lra). rewrite tofR_0. f_equal. ring.
-  - destruct (Z.ltb_spec (pdur R ta) da) as [L2|L2].
+  - destruct (Z.ltb_spec (pdur R ta) da) as [L2|L2]; cbn [orb] in H.
     + destruct (extend_shape ta da ta' W L2 H) as (init & l & E & E').
       destruct (extend_curve ta da ta' W H) as (W' & C & _).
       exists (init ++ [mkPt (pd l + (da - pdur R ta)) (pv l) (pc l)]), (mkPt 0 (pv l) 0%R).
       split; [rewrite <- app_assoc; exact E'|]. split; [reflexivity|]. split.
       * subst ta. rewrite !pdur_app. cbn [pdur pd]. lia.
       * split; [exact W'|]. intros x _. apply C.
-    + assert (Ed : pdur R ta = da) by lia. inversion H; subst ta'.
-      destruct (HZ Ed) as (X & L & E & HL). exists X, L. split; [exact E|]. split; [exact HL|]. split.
-      * subst ta. rewrite pdur_app in Ed. cbn [pdur] in Ed. lia.
-      * split; [exact W|reflexivity].
+    + assert (Ed : pdur R ta = da) by lia.
+      destruct (tail_positive R ta) eqn:TP.
+      * (* a tail that ends exactly at the seam: a control point is set there *)
+        subst da. destruct (extend_shape_eq ta ta' W TP H) as (init & l & E & E').
+        destruct (extend_curve ta (pdur R ta) ta' W H) as (W' & C & _).
+        exists ta, (mkPt 0 (pv l) 0%R). split; [exact E'|]. split; [reflexivity|]. split; [reflexivity|].
+        split; [exact W'|]. intros x _. apply C.
+      * inversion H; subst ta'.
+        destruct (tail_positive_false_last_zero ta Ne W TP) as (X & L & E & HL).
+        exists X, L. split; [exact E|]. split; [exact HL|]. split.
+        -- subst ta. rewrite pdur_app in Ed. cbn [pdur] in Ed. lia.
+        -- split; [exact W|reflexivity].
 Qed.
 
 (* B2: the joined tempo *)
 Theorem join_spec fa fb (ta : envR) da tb t : pwf ta -> pwf tb -> ta <> [] -> tb <> [] -> 0 <= da ->
   nontrivial fa fb ta tb ->
-  (pdur R ta = da -> last_zero ta) ->
   join_tempo R RNum fa fb ta da tb = Ok t ->
   pwf t /\
   (forall x, (0 < x < tofR da)%R -> curve t x = curve ta x) /\
   (forall x, (x <= 0)%R -> curve t x = curve ta x) /\
   (forall x, (tofR da < x)%R -> curve t x = curve tb (x - tofR da)%R).
 Proof.
-  intros Wa Wb Na Nb Hd NT HZ H. rewrite join_unfold, (nontrivial_false _ _ _ _ NT) in H.
+  intros Wa Wb Na Nb Hd NT H. rewrite join_unfold, (nontrivial_false _ _ _ _ NT) in H.
   match type of H with (bind ?c _) = _ => destruct c as [ta'|] eqn:E end; [|discriminate].
   cbn [bind] in H. inversion H; subst t. clear H.
-  destruct (first_part ta da ta' Wa Na Hd HZ E) as (X & L & E' & HL & HX & W' & C).
+  destruct (first_part ta da ta' Wa Na Hd E) as (X & L & E' & HL & HX & W' & C).
   subst ta'. destruct (join_core X L tb W' HL Wb Nb) as (P1 & P2 & P3 & P4). rewrite HX in *.
   pose proof (tofR_nonneg _ Hd) as Nd.
   split; [exact P1|]. split; [|split].
@@ -208,13 +262,13 @@ Proof.
 Qed.
 
 Theorem join_at_joint fa fb (ta : envR) da (q : ptR) tb0 t : pwf ta -> ta <> [] -> 0 < da ->
-  nontrivial fa fb ta (q :: tb0) -> (pdur R ta = da -> last_zero ta) -> 0 < pd q \/ tb0 = [] ->
+  nontrivial fa fb ta (q :: tb0) -> 0 < pd q \/ tb0 = [] ->
   join_tempo R RNum fa fb ta da (q :: tb0) = Ok t -> curve t (tofR da) = pv q.
 Proof.
-  intros Wa Na Hd NT HZ Hq H. rewrite join_unfold, (nontrivial_false _ _ _ _ NT) in H.
+  intros Wa Na Hd NT Hq H. rewrite join_unfold, (nontrivial_false _ _ _ _ NT) in H.
   match type of H with (bind ?c _) = _ => destruct c as [ta'|] eqn:E end; [|discriminate].
   cbn [bind] in H. inversion H; subst t. clear H.
-  destruct (first_part ta da ta' Wa Na ltac:(lia) HZ E) as (X & L & E' & HL & HX & W' & C).
+  destruct (first_part ta da ta' Wa Na ltac:(lia) E) as (X & L & E' & HL & HX & W' & C).
   subst ta'. rewrite <- HX. apply join_core_joint; [exact W'|exact HL|lia|exact Hq].
 Qed.
 
@@ -225,39 +279,36 @@ Proof.
   intros Hv. rewrite join_unfold. cbn [negb andb neqb RNum]. destruct (Req_EM_T (pv p) (pv q)); [reflexivity|contradiction].
 Qed.
 
-(* the hypothesis of join_spec for da = pdur ta is needed: a last point of positive duration is
-   interpolated towards the second operand's first value *)
+(* a trajectory that ends with a tail exactly at the seam (the case the unrepaired code got wrong: defect D12):
+   a control point is set at the seam, so the tail keeps its value up to the seam *)
 Definition ex_ta : envR := [mkPt 2 60 0]%R.
 Definition ex_tb : envR := [mkPt 0 120 0]%R.
-Theorem join_last_positive_refuted :
-  exists t x, join_tempo R RNum false false ex_ta 2 ex_tb = Ok t /\ (0 < x < tofR 2)%R /\ curve t x <> curve ex_ta x.
+Example join_tail_at_seam :
+  tail_positive R ex_ta = true /\ pdur R ex_ta = 2 /\
+  exists t, join_tempo R RNum false false ex_ta 2 ex_tb = Ok t /\
+            forall x, (0 < x < tofR 2)%R -> curve t x = curve ex_ta x.
 Proof.
-  exists [mkPt 2 60 0; mkPt 0 120 0]%R, (tofR 1). split.
-  - rewrite join_unfold. unfold ex_ta, ex_tb. cbn [negb andb neqb RNum pv].
-    destruct (Req_EM_T 60 120) as [A|A]; [lra|]. cbn [pdur pd Z.add Z.ltb Z.compare Pos.compare Pos.compare_cont bind app].
-    reflexivity.
-  - pose proof (tofR_pos 1 ltac:(lia)) as P1. pose proof (tofR_lt 1 2 ltac:(lia)) as P2.
-    split; [lra|]. unfold ex_ta. rewrite !curve_pos by exact P1. cbn [cg curve_go pd pv pc].
-    destruct (Rlt_dec (tofR 1) (0 + tofR 2)); [|lra].
-    unfold segR. destruct (Req_EM_T 0 0); [|lra].
-    assert (Eq : ((tofR 1 - 0) / (0 + tofR 2 - 0) = 1 / 2)%R).
-    { assert (E2 : tofR 2 = (tofR 1 + tofR 1)%R) by (rewrite <- tofR_plus; reflexivity).
-      rewrite E2. field. lra. }
-    rewrite Eq. lra.
+  assert (W : pwf ex_ta) by (repeat constructor; cbn; lia).
+  assert (Wb : pwf ex_tb) by (repeat constructor; cbn; lia).
+  assert (NT : nontrivial false false ex_ta ex_tb) by (right; right; cbn; lra).
+  split; [unfold tail_positive; cbn; reflexivity|]. split; [reflexivity|].
+  destruct (join_total false false ex_ta 2 ex_tb W ltac:(discriminate) ltac:(lia)) as [t E].
+  exists t. split; [exact E|].
+  destruct (join_spec false false ex_ta 2 ex_tb t W Wb ltac:(discriminate) ltac:(discriminate) ltac:(lia) NT E) as (_ & C & _).
+  exact C.
 Qed.
 
 (* satisfiability of the hypotheses: a trajectory cut to a shorter event, joined with a constant tempo *)
 Example join_hyps_ok :
   let ta : envR := [mkPt 4 60 0; mkPt 0 90 0]%R in let tb : envR := [mkPt 0 120 0]%R in
-  pwf ta /\ pwf tb /\ ta <> [] /\ tb <> [] /\ 0 <= 2 /\ nontrivial true false ta tb /\ (pdur R ta = 2 -> last_zero ta).
+  pwf ta /\ pwf tb /\ ta <> [] /\ tb <> [] /\ 0 <= 2 /\ nontrivial true false ta tb.
 Proof.
   cbv zeta. split; [repeat constructor; cbn; lia|]. split; [repeat constructor; cbn; lia|].
-  split; [discriminate|]. split; [discriminate|]. split; [lia|]. split; [left; reflexivity|].
-  cbn. lia.
+  split; [discriminate|]. split; [discriminate|]. split; [lia|]. left; reflexivity.
 Qed.
 
 Print Assumptions join_total.
 Print Assumptions join_spec.
 Print Assumptions join_at_joint.
 Print Assumptions join_trivial.
-Print Assumptions join_last_positive_refuted.
+Print Assumptions join_tail_at_seam.
